@@ -52,6 +52,7 @@ type Case struct {
 	Seed      uint64   `json:"seed"`
 	Batch     string   `json:"batch,omitempty"` // roam: batchMode of the relay ("no" = generic loop, "" = platform default = sendmmsg)
 	Hist      string   `json:"hist,omitempty"`  // roam: the client's address family per step, e.g. "464"
+	Steps     []HStep  `json:"steps,omitempty"` // hist: the packets of the history
 }
 
 // ---------- the statement's own arithmetic ----------
@@ -256,6 +257,8 @@ func runCase(c Case) (s *script) {
 		runDown(s, c)
 	case "roam":
 		runRoam(s, c)
+	case "hist":
+		runHist(s, c)
 	default:
 		panic("unknown case kind " + c.Kind)
 	}
@@ -592,11 +595,13 @@ func record(rep *common.Report, r result, haveDriver bool) {
 		rep.Count("pair " + c.C)
 	case "roam":
 		rep.Count("roam " + c.S + " batch=" + c.Batch)
+	case "hist":
+		rep.Count("hist " + c.C)
 	default:
 		rep.Count(c.Kind + " " + c.S + "/" + c.C)
 	}
 	rep.Count(fmt.Sprintf("mtu=%d", c.MTU))
-	if c.Kind != "roam" {
+	if c.Kind != "roam" && c.Kind != "hist" {
 		rep.Count("addr=" + strings.SplitN(c.Addr, ":", 2)[0])
 	}
 	for _, f := range s.fails {
@@ -692,6 +697,8 @@ func main() {
 		"addresses IPv4 / IPv4-mapped / IPv6 / domain 1..255 / zero value, ports 0,1,53,65535,random, MTU {1280,1492,1500,9000,65535,+jumbo}, padding policies; " +
 		"the padding length, timestamp and ids the code chose are read back by decrypting a copy and given to the model; compared per operation: outcome class, offsets, address, hash of the plaintext packet, of the payload and of the bytes before/behind the packet; " +
 		"a case is non-trivial if at least one pack+unpack round trip succeeded; distinct by the full case description. " +
+		"histories (kind hist): 2..8 packets of one session through the SAME packer/unpacker instances and the SAME backing buffer at a fixed offset (and shifted offsets): domains of equal length, repeated domains, IP targets and refused packets in between; " +
+		"for the direct client a scripted resolver (net.DefaultResolver replaced) answers or fails per name and step; oracle per packet: what comes out is what this packet carried / a domain target is addressed only to an address the resolver gave for that very name. " +
 		"engine roam: a relay built through service.Config->Manager on a dual-stack loopback socket (ss2022 session relay or none NAT relay, generic and sendmmsg loops) with the direct client and a UDP echo target; " +
 		"one ss2022 client session moves between 127.0.0.1 (seen as ::ffff:127.0.0.1) and ::1 along every history of length <= 3 (+ random longer ones); after each move replies sized MTU-48±2 and MTU-28±2 are requested; " +
 		"oracle: no datagram delivered to a client exceeds the limit of the MTU and that client's address family, delivered payloads are the ones sent, fitting replies arrive; compared with the model: the largest reply let through = the cached limit the Lean model predicts for that history"
@@ -707,6 +714,11 @@ func main() {
 		var cases []Case
 		cases = append(cases, directed()...)
 		cases = append(cases, roamCases(r.Fork(1<<40), o)...)
+		cases = append(cases, directedHist()...)
+		nHist := o.Budget(1500, 60000)
+		for i := 0; i < nHist; i++ {
+			cases = append(cases, genHist(r.Fork(uint64(1<<41+i)), i))
+		}
 		nPair := o.Budget(4000, 120000)
 		nRelay := o.Budget(2500, 60000)
 		for i := 0; i < nPair; i++ {
